@@ -34,8 +34,13 @@ def inject_error(m, rng):
         for li, l in enumerate(t["locations"]):
             if l.get("inv") is not None:
                 cands.append(("inv", ti, li))
-    if not cands:
-        return None
+    if rng.random() < 0.12 or not cands:
+        # a location that is urgent and committed at once: <urgent/><committed/> in XML, named in both lists in XTA
+        t = rng.choice(m["templates"])
+        l = rng.choice(t["locations"])
+        l["flag"] = "urgent"
+        l["both_flags"] = True
+        return "location/both-flags"
     kind, ti, i = rng.choice(cands)
     t = m["templates"][ti]
     what = rng.choice(["undeclared", "type", "disjunction"])
@@ -178,7 +183,7 @@ def run(rep, tier, seed):
         faulty = None
         if rng.random() < 0.25:
             faulty = inject_error(m, rng)
-        xml = GM.render_xml(m, rng)
+        xml = GM.render_xml(m, rng, cdata=rng.choice([False, False, "whole"]), empty_elems=rng.random() < 0.3)
         xta = GM.render_xta(m, rng)
         if rng.random() < 0.15:
             xta = xta.replace("\n", "\r\n")           # CRLF is a legal line end in plain-text input
